@@ -89,6 +89,7 @@ class SimStream:
         self.hit_eof = False            # a read met EOF (returned fewer than asked because data ended)
         self.eof_reads = 0              # reads that returned b''
         self.max_calls = max_calls if max_calls is not None else len(data) + 64
+        self.keep_alive = False         # True: no EOF after the data, a read there blocks (reported as SimHang)
         self.log = log
         self.closed = False
 
@@ -121,6 +122,11 @@ class SimStream:
             self.calls.append((n, k, pos))
             return out
         avail = total - pos
+        if avail <= 0 and self.endless is None and self.keep_alive:
+            # the peer has sent its complete message and keeps the connection open: a further read never returns
+            self.calls.append((n, 0, pos))
+            raise SimHang(f'read({n}) at offset {pos} after the complete message was delivered on a connection that '
+                          f'stays open: the read would block for ever')
         if avail <= 0 and self.endless is None:
             self.hit_eof = True
             self.eof_reads += 1
